@@ -29,11 +29,6 @@
      subkeypre <parent> <desc>        -> what Subkey feeds to the hash (prefix ++ parent ++ desc)
      hashobj <chunk>*                 -> the state of a Hash after these Writes (= everything written)
      fh reset | fh set <name> <sum> | fh get <name> <content|none>   -> FileHash's memo table: ok | ok | ERR | <sum>
-     srcparse <entry> <id>            -> the translated segments of get (Gen/CacheSrc.v: src_Cache_get_parse with bound 21 on
-                                         entry ++ [0], then src_Cache_get_result): NF | F out size unixnano | PANIC | OUTOFFUEL,
-                                         NA when the entry is not entrySize bytes long (the length test precedes the segment)
-     srcentry <id> <out> <size> <tm>  -> the translated fmt.Sprintf of putIndexEntry at the clock value tm (decimal ns)
-     srcname <dir> <id> <key>         -> the translated fileName
    A hash that the table does not contain is answered by  NEED <content>  (nothing changes). *)
 exception Need of string
 
@@ -315,40 +310,5 @@ let handle = function
       hex_of_bytes (encode_entry (bytes_of_hex id) (bytes_of_hex out) (z_of_int (int_of_string size)) (z_of_int (int_of_string tm)))
   | _ -> "BAD-REQUEST"
 
-(* ---- the translated segments (Gen/CacheSrc.v) *)
-let z_of_decimal (s : string) : z =
-  let neg = String.length s > 0 && s.[0] = '-' in
-  let ten = z_of_int 10 in
-  let acc = ref Z0 in
-  String.iteri (fun i c ->
-    if i = 0 && (c = '-' || c = '+') then ()
-    else if c >= '0' && c <= '9' then acc := Z.add (Z.mul !acc ten) (z_of_int (Char.code c - 48))
-    else failwith "bad number") s;
-  if neg then Z.opp !acc else !acc
-
-let src_handle = function
-  | ["srcparse"; e; id] ->
-      let e = bytes_of_hex e in
-      if List.length e <> int_of_nat entry_size_n then "NA" else
-      (match src_Cache_get_parse (nat_of_int 21) (bytes_of_hex id) false (e @ [byte_of_int 0]) with
-       | Ok (Normal ((((_, _), out), size), tm)) ->
-           (match src_Cache_get_result out size tm with
-            | Ok (Return (ent, false)) ->
-                Printf.sprintf "F %s %s %s" (hex_of_bytes ent.ent_out) (show_z ent.ent_size) (show_z (go_time_UnixNano ent.ent_time))
-            | Ok _ -> "BAD-RESULT" | Panic -> "PANIC" | OutOfFuel -> "OUTOFFUEL")
-       | Ok (Return (_, true)) -> "NF"
-       | Ok _ -> "BAD-OUTCOME"
-       | Panic -> "PANIC"
-       | OutOfFuel -> "OUTOFFUEL")
-  | ["srcentry"; id; out; size; tm] ->
-      (match src_Cache_putIndexEntry_entry (bytes_of_hex id) (bytes_of_hex out) (z_of_decimal size) (time_of_ns (z_of_decimal tm)) with
-       | Ok (Normal e) -> hex_of_bytes e
-       | Ok _ -> "BAD-OUTCOME" | Panic -> "PANIC" | OutOfFuel -> "OUTOFFUEL")
-  | ["srcname"; dir; id; key] ->
-      (match src_Cache_fileName_body { cache_dir = bytes_of_hex dir; cache_now = () } (bytes_of_hex id) (bytes_of_hex key) with
-       | Ok (Return n) -> hex_of_bytes n
-       | Ok _ -> "BAD-OUTCOME" | Panic -> "PANIC" | OutOfFuel -> "OUTOFFUEL")
-  | req -> handle req
-
-let () = serve (fun req -> try src_handle req with Need c -> "NEED " ^ c)
+let () = serve (fun req -> try handle req with Need c -> "NEED " ^ c)
 (* note: NEED carries the whole content in hex *)
